@@ -369,6 +369,7 @@ def r16_4(ctx: Ctx):
             obs.append(ctx.ob("R16.4", f, eta_stmt, detail="ETA = counter, read after forward + increment (1-based)"))
         # guards on this path
         guard_first = guard_prec = False
+        negated_only = None
         for c, lab in s.conds:
             t = norm(c.ast)
             if is_self_attr(c.ast, "hit_precision", selfn) and lab is False:
@@ -379,12 +380,22 @@ def r16_4(ctx: Ctx):
                 is_abs = lambda e: isinstance(e, ast.Call) and norm(e.func) in ("abs", "np.abs", "numpy.abs", "math.fabs", "np.absolute") and "_global_optima" in norm(e)
                 if is_abs(l) and "precision" in rt and ((isinstance(op, ast.LtE) and lab is True) or (isinstance(op, ast.Gt) and lab is False)):
                     guard_prec = True
+                    negated_only = c.ast if (lab is False and negated_only is None) else False if lab is True else negated_only
                 if is_abs(r) and "precision" in lt and ((isinstance(op, ast.GtE) and lab is True) or (isinstance(op, ast.Lt) and lab is False)):
                     guard_prec = True
+                    negated_only = c.ast if (lab is False and negated_only is None) else False if lab is True else negated_only
         obs.append(ctx.ob("R16.4", f, eta_stmt, status=OK if guard_first else VIOLATION, detail="ETA store guarded by `not hit_precision`" if guard_first else "ETA can be overwritten after the first hit (no `not hit_precision` guard on the path)", construct="eta-first-hit-guard"))
         obs.append(ctx.ob("R16.4", f, eta_stmt, status=OK if guard_prec else VIOLATION, detail="ETA store guarded by |fitness - optimum| <= precision" if guard_prec else "ETA store is not guarded by |fitness - optimum| <= precision", construct="eta-precision-guard"))
+        if guard_prec and negated_only:
+            # the hit is the FALSE outcome of `|f - opt| > eps`: a NaN value (a failed evaluation) compares false to everything, so it
+            # takes that outcome too, unless the path also tests the value for NaN
+            nan_tested = any(c.ast is not None and any(isinstance(x, ast.Call) and norm(x.func).split(".")[-1] in ("isnan", "isfinite") for x in ast.walk(c.ast)) for c, _ in s.conds)
+            obs.append(ctx.ob("R16.4", f, negated_only, status=INCONCLUSIVE if nan_tested else VIOLATION, detail=f"the first hit is recorded when `{norm(negated_only)[:70]}` is FALSE: that is also the outcome for a NaN value, which is not within the precision of anything - a failed (NaN) evaluation is recorded as the hit and ETA freezes on it", construct="eta-precision-guard-nan"))
         if "store:hit_precision" not in kinds:
-            obs.append(ctx.ob("R16.4", f, eta_stmt, status=VIOLATION, detail="the path that stores ETA does not set hit_precision", construct="eta-sets-flag"))
+            # the flag may be DERIVED from ETA (a property reading it): storing ETA then sets it
+            hp = ctx.prog.lookup_method(ci, "hit_precision")
+            derived = hp is not None and any(isinstance(x, ast.Attribute) and x.attr == "ETA" for x in ast.walk(hp.node))
+            obs.append(ctx.ob("R16.4", f, eta_stmt, status=INCONCLUSIVE if derived else VIOLATION, detail="hit_precision is computed from ETA by a property: cannot tell from the stores alone that it is set exactly when ETA is" if derived else "the path that stores ETA does not set hit_precision", construct="eta-sets-flag"))
     # completeness: a forwarding path that does NOT store ETA is taken only when the hit was recorded before or the value is
     # outside the precision. Propositional check per path: (conditions of the path) and (within precision) and (no hit yet)
     # must be unsatisfiable; further conditions are free atoms.
